@@ -131,7 +131,7 @@ def run(ctx):
     wit = witness_pkgs()
     for cid, files, extra in wit:
         pk.append(("witness:" + cid, files, dict(extra, reps=40)))
-    ngen = ctx.n(90, 500)
+    ngen = ctx.n(90, 350)
     for i in range(ngen):
         errs = [0, 0, 1, 2, 3][ctx.rng.below(5)]
         gerrs = [0, 0, 2, 4][ctx.rng.below(4)]
@@ -149,8 +149,8 @@ def run(ctx):
         pk.append(("genbuild-multi:%d" % i, files, {"via": "build", "reps": 16}))
     lines = [g9gen.case_line(cid, files, **extra) for cid, files, extra in pk]
     inp = "\n".join(lines) + "\n"
-    R = ctx.n(8, 32)
-    F = ctx.n(8, 32)
+    R = ctx.n(8, 24)
+    F = ctx.n(8, 24)
 
     def one(args):
         return ctx.run([impl, "-exports", exports] + args, input=inp, timeout=900)
